@@ -418,7 +418,33 @@ def r05_6(ctx: Ctx) -> None:
         raise AnalysisError(f"formation.py: expected at least 3 bisection-bounded scans, found {count}")
 
 
+def r05_7(ctx: Ctx) -> None:
+    """ _merge_sets returns the transitive closure of 'share a member': a set that grew by absorbing another one is compared
+        again with the sets it was found disjoint from before (merging until nothing changes, or a union-find) """
+    qual = "_merge_sets"
+    func = ctx.fn(FORM, qual)
+    merges = [c for c in calls(func) if last_attr(c) in ("update", "union") and isinstance(c.func, ast.Attribute)
+              and isinstance(c.func.value, ast.Name) and c.args and isinstance(c.args[0], ast.Name)
+              and enclosing_loops(c, stop=func)]
+    merges += [n for n in walk_local(func) if isinstance(n, ast.AugAssign) and isinstance(n.op, ast.BitOr) and enclosing_loops(n, stop=func)]
+    if not merges:
+        ctx.ob("R05.7", FORM, func, qual, "merged until nothing changes", True, "merging is delegated", form="", vacuous=True)
+        return
+    for index, merge in enumerate(merges):
+        loops = enclosing_loops(merge, stop=func)
+        # the scan that found the overlap is repeated for the grown set: a while loop between the outermost loop and the merge
+        repeated = any(isinstance(lp, ast.While) for lp in loops)
+        ctx.ob("R05.7", FORM, merge, qual, f"merged until nothing changes#{index}", repeated,
+               "after a set has absorbed another one it is compared again with the sets it was disjoint from before, so the "
+               "result is the transitive closure and the returned sets are disjoint",
+               detail="" if repeated else "a single pass: with hybrid pairs {p1,p5} {p2,p3} {p3,p5} (in start order) {p2,p3} is found "
+               "disjoint from {p1,p5} before {p3,p5} is absorbed into it, and is returned next to {p1,p2,p3,p5}",
+               form=" > ".join(type(lp).__name__ for lp in reversed(loops)))
+
+
 def run(ctx: Ctx) -> None:
+    ctx.rule("R05.7", "set merging reaches the transitive closure", floor=1)
+    r05_7(ctx)
     ctx.rule("R05.1", "store and lookup keys of the de-duplication table agree", floor=3)
     ctx.rule("R05.2", "each formation pass compares what its kind documents", floor=20)
     ctx.rule("R05.4", "closing sanity assertion and group sizes", floor=5)
